@@ -209,7 +209,14 @@ func newStreamCodec(rwc io.ReadWriteCloser, f streamEncoding) *streamCodec {
 
 func (c *streamCodec) Encode(ctx context.Context, m *capnp.Message) error {
 	c.wc.setWriteContext(ctx)
-	return c.enc.Encode(m)
+	c.wc.written = 0
+	err := c.enc.Encode(m)
+	if err != nil && c.wc.written > 0 {
+		// Part of the frame is on the wire: the stream is torn.  The
+		// Encoder wraps the writer's error, so report it here.
+		return partialWriteError{err}
+	}
+	return err
 }
 
 func (c *streamCodec) Decode(ctx context.Context) (*capnp.Message, error) {
@@ -367,6 +374,7 @@ type ctxWriteCloser struct {
 	io.WriteCloser
 	ctx                 context.Context
 	partialWriteTimeout time.Duration
+	written             int // bytes written since the last Encode started
 }
 
 // Write bytes to a writer while making a best effort to
@@ -375,6 +383,7 @@ type ctxWriteCloser struct {
 // ignore the Done signal to avoid partial writes.
 func (wc *ctxWriteCloser) Write(b []byte) (int, error) {
 	n, err := wc.write(b)
+	wc.written += n
 	if n > 0 && n < len(b) {
 		err = partialWriteError{err}
 	}
